@@ -38,6 +38,9 @@ type c19Checker struct{}
 
 func (c *c19Checker) After(w *World, ev *Event) []Failure {
 	var fs []Failure
+	// Under a non-default configuration only the clauses that do not depend on the configuration's
+	// own notion of special schemes / default ports are evaluated.
+	neutral := w.Cfg.Profile == "" && (len(w.Cfg.Opts) == 0 || (len(w.Cfg.Opts) == 1 && w.Cfg.Opts[0].N == "report"))
 	for _, id := range w.uids() {
 		o := w.Cur[id]
 		ctx := []string{"url", fmt.Sprintf("u%d", id), "href", q(o.Href), "prov", w.U[id].Prov}
@@ -49,7 +52,7 @@ func (c *c19Checker) After(w *World, ev *Event) []Failure {
 			add("C19.IsIPv6", "IsIPv6", fmt.Sprint(o.V6), "hostname", q(o.Hostname))
 		}
 		isV4 := stdSpecial[o.Scheme] && isCanonV4(o.Hostname)
-		if o.V4 != isV4 {
+		if neutral && o.V4 != isV4 {
 			add("C19.IsIPv4", "IsIPv4", fmt.Sprint(o.V4), "hostname", q(o.Hostname), "scheme", o.Scheme)
 		}
 		want := stdDefaultPort[o.Scheme]
@@ -59,7 +62,7 @@ func (c *c19Checker) After(w *World, ev *Event) []Failure {
 				want = n
 			}
 		}
-		if o.DPort != want {
+		if neutral && o.DPort != want {
 			add("C19.DecodedPort", "DecodedPort", fmt.Sprint(o.DPort), "want", fmt.Sprint(want), "port", q(o.Port), "scheme", o.Scheme)
 		}
 		if o.Scheme+":" != o.Protocol {
@@ -77,7 +80,7 @@ func (c *c19Checker) After(w *World, ev *Event) []Failure {
 		if strings.HasPrefix(o.Href, o.Protocol) && o.Opaque != shapeOpaque {
 			add("C19.OpaquePath", "OpaquePath", fmt.Sprint(o.Opaque), "pathname", q(o.Pathname))
 		}
-		if o.Special != stdSpecial[o.Scheme] {
+		if neutral && o.Special != stdSpecial[o.Scheme] {
 			add("C19.IsSpecialScheme", "IsSpecialScheme", fmt.Sprint(o.Special), "scheme", o.Scheme)
 		}
 	}
